@@ -41,6 +41,7 @@ def run(chk: Check, proj: Project) -> None:
     s5_css_forms(chk, proj, m)
     s6_defined_is_not_none(chk, proj, m)
     s7_declared_collections_not_mutated(chk, proj, m)
+    s8_own_media_always_normalised(chk, proj, m)
 
 
 def s5_css_forms(chk: Check, proj: Project, m) -> None:
@@ -504,6 +505,25 @@ def s7_declared_collections_not_mutated(chk: Check, proj: Project, m) -> None:
                f"{q} only rebinds `{mp}.js` / `{mp}.css`" if not bad else
                f"`{short(bad[0])}` writes into the collection object the user declared: two component classes in different directories that share one constant see each other's rewrite - after `Alpha.media` resolved `widget.css` against Alpha's directory, `Beta.media` (already computed as ['widget.css']) reads ['alpha_pkg/widget.css'] and the page links the other component's file")
     chk.floor("S7", n_bind, 4)
+
+
+def s8_own_media_always_normalised(chk: Check, proj: Project, m) -> None:
+    chk.rule("S8", "the short forms of a class's OWN `Media` are always normalised: at class creation `_normalize_media` is called for the Media the class body declares, guarded by its presence alone - a 'normalised already' mark read with getattr is INHERITED by `class Media(Parent.Media)` (Django's idiom), whose own `js = \"child.js\"` then reaches Django's Media as a raw string and is iterated character by character")
+    cs = [(q, fn, c) for q, fn in sorted(m.defs.items()) if isinstance(fn, ast.FunctionDef) and fn.name == "__new__" for c in ast.walk(fn) if isinstance(c, ast.Call) and last_attr(c.func) == "_normalize_media"]
+    chk.floor("S8", len(cs), 1)
+    from ..cfg import flatten_conj as _fc, path_conditions as _pc
+
+    for q, fn, c in cs:
+        chk.analysed(f"{m.name}:{q}")
+        extra = []
+        for e, pol in _fc(_pc(c)):
+            t = norm(e)
+            presence = (isinstance(e, ast.Compare) and len(e.ops) == 1 and ((isinstance(e.ops[0], (ast.In, ast.NotIn)) and isinstance(e.left, ast.Constant) and e.left.value == "Media") or (isinstance(e.ops[0], (ast.Is, ast.IsNot)) and isinstance(e.comparators[0], ast.Constant) and e.comparators[0].value is None)))
+            if not presence:
+                extra.append(t)
+        chk.ob("S8", f"component_media:{q}:own-Media-normalised-whenever-declared", m.loc(c), not extra,
+               "`_normalize_media` runs whenever the class body declares a Media" if not extra else
+               f"`{short(c)}` is skipped when `{extra[0]}`: a condition read from the Media class itself is inherited by a nested `class Media(Parent.Media)`, so the subclass's own short forms are never normalised - `Child.media._js == ['c', 'h', 'i', 'l', 'd', ...]`")
 
 
 MANIFEST = {
